@@ -8,7 +8,7 @@ export CARGO_NET_OFFLINE=true
 git -C /repo worktree remove --force $WT >/dev/null 2>&1; rm -rf $WT
 git -C /repo worktree add --detach $WT HEAD >/dev/null 2>&1 || { echo "$ID: worktree failed"; exit 9; }
 cd $WT
-cp /verif/seeded/$ID/seeded_demo.rs $DEST
+mkdir -p $(dirname $DEST); cp /verif/seeded/$ID/seeded_demo.rs $DEST
 name=$(basename $DEST .rs)
 cargo test --offline --target-dir $TD -p $PKG --test $name >/tmp/sv_$ID.clean.log 2>&1; clean=$?
 git apply /verif/seeded/$ID/patch.diff; ap=$?
